@@ -231,6 +231,9 @@ class TypedKernel(Kernel):
             if lf is not None:
                 return lf
             return ("conv", e2[1], self.term(e2[3][0], depth + 1))
+        if isinstance(e2, tuple) and e2[0] == "call" and e2[1] == "raw" and "noisy_float" in str(e2[2]) and len(e2[3]) == 1:
+            # N64::raw() is the f64 the checked float wraps: the same value `.to_f64().unwrap()` yields
+            return ("conv", "to_f64", self.term(e2[3][0], depth + 1))
         return Kernel.term(self, e, depth)
 
 
